@@ -158,6 +158,36 @@ Proof.
   - destruct (enter_winv _ _ _ _ _ inv0 M) as [base' W']. apply (run_safe ops allocs' t' spec0 base' W' OK).
   - exact (make_accessible_no_oob _ _ _ _ _ _ M).
 Qed.
+(** the same from any valid tape state (a context that is reused: whatever the tape API did before,
+    [Inv] holds by the theorems of C09), after the entry sequence *)
+Theorem protocol_safe_from : forall ops allocs t s base, Inv t s base -> rops_ok mn mx ops (s_pos s) = true ->
+  match r_run pol mn mx (REnter :: ops) allocs t with
+  | TOk (log, _) => vals_of log = r_spec ops (s_cells s) (s_pos s)
+  | RawOob _ => False
+  | _ => True
+  end.
+Proof.
+  intros ops allocs t s base HI OK. cbn [r_run].
+  destruct (if grows t mn (mx + 1) then next_alloc allocs else (true, allocs)) as [ok allocs'].
+  destruct (t_make_accessible pol ok t mn (mx + 1)) as [t'|i| |] eqn:M; try exact I.
+  - destruct (enter_winv _ _ _ _ _ HI M) as [base' W']. apply (run_safe ops allocs' t' s base' W' OK).
+  - exact (make_accessible_no_oob _ _ _ _ _ _ M).
+Qed.
+(** a reused context: some range [a, b) was made accessible before the program is entered *)
+Theorem protocol_safe_reused : forall a b ops allocs, rops_ok mn mx ops 0 = true ->
+  match r_run pol mn mx (RPre a b :: REnter :: ops) allocs rtape0 with
+  | TOk (log, _) => vals_of log = r_spec ops (fun _ => 0) 0
+  | RawOob _ => False
+  | _ => True
+  end.
+Proof.
+  intros a b ops allocs OK. cbn [r_run].
+  destruct (if grows rtape0 a b then next_alloc allocs else (true, allocs)) as [ok allocs'].
+  destruct (t_make_accessible pol ok rtape0 a b) as [t'|i| |] eqn:M; try exact I.
+  - destruct (grow_inv pol rtape0 spec0 0 a b ok t' HP inv0 M) as (base' & HI' & _).
+    apply (protocol_safe_from ops allocs' t' _ base' (forget_acc _ _ _ _ HI') OK).
+  - exact (make_accessible_no_oob _ _ _ _ _ _ M).
+Qed.
 End Protocol.
 
 (** ** unchecked mode *)
